@@ -242,6 +242,11 @@ def run(ctx: Context) -> None:
                 packed = TupleEval(pack, {pack.params[1]: K, pack.params[2]: A}).run()
                 unpacked = TupleEval(unpack, {unpack.params[1]: packed}).run()
             except Unsupported as exc:
+                if 'out of range for arity' in str(exc):
+                    # a position the index does not have is read: that is a wrong index on every input, not something the analysis cannot read
+                    ctx.check('R01.1', False, f"pack_index / unpack_index read only the positions an index of this convention has (arity {arity})", pack, pack.node,
+                              construct=f"{ci.short}: {exc}")
+                    continue
                 raise AnalysisError(f"{ci.short}: pack/unpack uses a construct outside the tuple algebra: {exc}")
             kinds_fi, kind_entries = keyed_collection(ctx, ci, 'grid_kinds')
             all_kinds = expand_entries(ctx, kind_entries)
@@ -583,6 +588,7 @@ _A = 'src/emsarray/conventions/arakawa_c.py'
 _U = 'src/emsarray/conventions/ugrid.py'
 _G = 'src/emsarray/conventions/grid.py'
 VARIANTS = [
+    V('C01', 'mesh-pack-reads-second-position', 'src/emsarray/conventions/ugrid.py', "        return (grid_kind, indexes[0])", "        return (grid_kind, indexes[1])", 'R01.1'),
     V('C01', 'given-latitude-name-not-stored', 'src/emsarray/conventions/grid.py', "        if latitude is not None:\n            self.latitude_name = latitude\n", "        if latitude is None:\n            self.latitude_name = latitude\n", 'R01.9'),
     V('C01', 'given-longitude-name-ignored', 'src/emsarray/conventions/grid.py', "        if longitude is not None:\n            self.longitude_name = longitude\n", "        if longitude is not None:\n            pass\n", 'R01.9'),
     V('C01', 'hand-built-arakawa-names-ignored', 'src/emsarray/conventions/arakawa_c.py', "        if coordinate_names is not None:", "        if coordinate_names is None:", 'R01.9'),
